@@ -218,6 +218,9 @@ func genGroup(prop string, seed uint64) *Plan {
 				if op.Kind == "commit_async" && g.pct(30) {
 					op.D = g.pick(1, 5, 20, 100, 400)
 				}
+				if (op.Kind == "commit_async" || op.Kind == "commit_sync") && g.pct(12) {
+					op.A = g.pick(1, 2, 5)
+				}
 				sc.Ops = append(sc.Ops, op)
 			}
 		}
